@@ -51,6 +51,10 @@ def cases(tier):
     # any smooth target: uninterpreted gradient with an uninterpreted symmetric Hessian
     for kind, dim, mkind in (("euclid", 1, "diag"), ("euclid", 2, "diag"), ("euclid", 2, "dense"), ("gauss", 2, "diag")):
         G(f"flows_uf/{kind}/{dim}/{mkind}", "flows", {"kind": kind, "dim": dim, "mkind": mkind, "uf": True})
+    # constrained systems: component flows in ambient coordinates (the Gram log-determinant force must be a gradient field)
+    for kind, mkind, kw in (("constr", "diag", {"ckind": "sphere", "hausdorff": False}), ("constr", "dense", {"ckind": "sphere", "hausdorff": False}),
+                            ("gauss_constr", "diag", {"ckind": "sphere"}), ("constr", "diag", {"ckind": "sphere", "hausdorff": True})):
+        G(f"flows_constr/{kind}/{mkind}/{'hausdorff' if kw.get('hausdorff') else 'lebesgue'}", "flows", {"kind": kind, "dim": 2, "mkind": mkind, **kw})
     for ik, kind, dim, mkind, n in (("leapfrog", "euclid", 2, "diag", 1), ("leapfrog", "euclid", 1, "diag", 2), ("symcomp1", "euclid", 1, "diag", 1),
                                      ("leapfrog", "gauss", 1, "diag", 1), ("symcomp2", "euclid", 2, "diag", 1), ("symcomp3", "euclid", 1, "diag", 1),
                                      ("leapfrog", "euclid", 2, "dense", 2), ("bcss4", "euclid", 2, "diag", 1), ("symcomp2", "gauss", 2, "diag", 1),
